@@ -166,28 +166,58 @@ def const_str(e):
 
 
 def d2_prior(ctx, rule='C19-D2'):
+    """The prior parser is pure string arithmetic.  The extracted function (own statements, module-level regular-expression
+    constants it names, restricted builtins, `re`) is evaluated on the strings _format_uncertainty can print - signed values,
+    with or without decimals, error mantissa without a point (to be scaled by the decimals of the value) or with one."""
+    import copy as _copy
+    import re as _re
     m = ctx.repo.mod('fits')
     f = m.func('_extract_val_and_dval')
-    fa = [s for s in statements(f) if isinstance(s, ast.Assign) and unparse(s.targets[0]) == 'factor']
-    key = 'fits.py:_extract_val_and_dval#scaling'
-    if len(fa) != 2:
-        ctx.unrec(rule, key, 'expected two assignments of factor')
+    key = 'fits.py:_extract_val_and_dval'
+    used = {x.id for x in ast.walk(f) if isinstance(x, ast.Name)}
+    consts = [x for x in m.tree.body if isinstance(x, ast.Assign) and len(x.targets) == 1 and isinstance(x.targets[0], ast.Name) and x.targets[0].id in used
+              and (isinstance(x.value, ast.Constant) or (isinstance(x.value, ast.Call) and call_name(x.value) in ('re.compile', 'compile') and all(isinstance(a, ast.Constant) or (isinstance(a, ast.Attribute) and unparse(a).startswith('re.')) or isinstance(a, ast.BinOp) for a in x.value.args)))]
+    bad = [type(x).__name__ for x in ast.walk(f) if isinstance(x, (ast.Import, ast.ImportFrom, ast.Global, ast.Nonlocal, ast.While, ast.With))]
+    if bad or len(f.args.args) != 1:
+        ctx.unrec(rule, key, 'parser is not plain string arithmetic (%s): not evaluated' % bad)
         return
-    scaled = [s for s in fa if const(s.value) is None]
-    plain = [s for s in fa if const(s.value) == 1]
-    if len(scaled) != 1 or len(plain) != 1:
-        ctx.unrec(rule, key, 'factor assignments %s' % [unparse(s.value) for s in fa])
+    safe = {'float': float, 'int': int, 'len': len, 'str': str, 'abs': abs, 'min': min, 'max': max, 'ValueError': ValueError, 'Exception': Exception, 'TypeError': TypeError, 'IndexError': IndexError,
+            'isinstance': isinstance, 'range': range, 'any': any, 'all': all, 'tuple': tuple, 'list': list, 'round': round, 'pow': pow, 'bool': bool, 'enumerate': enumerate, 'zip': zip, 'sum': sum}
+    g = _copy.deepcopy(f)
+    g.decorator_list = []
+    try:
+        ns = {'__builtins__': safe, 're': _re, 'compile': _re.compile}
+        exec(compile(ast.fix_missing_locations(ast.Module(body=[_copy.deepcopy(c) for c in consts] + [g], type_ignores=[])), '<prior>', 'exec'), ns)
+        fn = ns[f.name]
+    except Exception as ex_:
+        ctx.unrec(rule, key, 'cannot evaluate the parser: %r' % ex_)
         return
-    t = unparse(scaled[0].value)
-    ok = t == "10 ** (-len(split_string[0].partition('.')[2]))"
-    g = [(unparse(x), pol) for x, pol in guards_of(m, scaled[0], stop=f)]
-    okg = len(g) == 1 and g[0][1] and g[0][0] == "'.' in split_string[0] and '.' not in split_string[1][:-1]"
-    ctx.check(rule, key, ok and okg, 'a dot-free error after a value with D decimals is scaled by 10^-D (inverse of the printed form)', 'factor = %s under %s' % (t, g), m.loc(scaled[0]))
-    ret = [s for s in statements(f) if isinstance(s, ast.Return)]
-    okr = len(ret) == 1 and unparse(ret[0].value) == '(float(split_string[0]), float(split_string[1][:-1]) * factor)'
-    ctx.check(rule, 'fits.py:_extract_val_and_dval#return', okr, 'returns (value, error * factor)', 'returns %s' % [unparse(r.value) for r in ret])
-    sp_ = find_def(f, 'split_string')
-    ctx.check(rule, 'fits.py:_extract_val_and_dval#split', len(sp_) == 1 and unparse(sp_[0].value) == "%s.split('(')" % f.args.args[0].arg, "split at '('", 'split = %s' % [unparse(s.value) for s in sp_])
+    vals = ['0', '1', '12', '305', '0.5', '1.5', '0.548', '12.75', '3.10', '0.0021', '100.0', '7.000']
+    errs = ['1', '3', '23', '15', '50', '120', '1.2', '0.5', '10.0', '2.50']
+    wrong = []
+    count = 0
+    for sign in ('', '-'):
+        for v in vals:
+            for e_ in errs:
+                st = '%s%s(%s)' % (sign, v, e_)
+                count += 1
+                wv = float(sign + v)
+                dec = len(v.partition('.')[2])
+                we = float(e_) if ('.' in e_ or '.' not in v) else int(e_) * 10.0 ** (-dec)
+                try:
+                    got = fn(st)
+                    gv, ge = float(got[0]), float(got[1])
+                except NameError as ex_:
+                    ctx.unrec(rule, key, 'cannot evaluate the parser on %r: %r' % (st, ex_))
+                    return
+                except Exception as ex_:
+                    wrong.append((st, 'raised %r' % ex_, (wv, we)))
+                    continue
+                if abs(gv - wv) > 1e-12 * max(1.0, abs(wv)) or abs(ge - we) > 1e-12 * max(1.0, abs(we)):
+                    wrong.append((st, (gv, ge), (wv, we)))
+    ctx.check(rule, key + '#values', not wrong, 'every printable value(error) string is read back as (value, error scaled by the decimals of the value); %d strings evaluated' % count,
+              'the prior string %r is read as %s, expected %s%s' % (wrong[0] + ((' (and %d more strings)' % (len(wrong) - 1)) if len(wrong) > 1 else '',)) if wrong else '', m.loc(f))
+    ctx.info['prior_strings_evaluated'] = count
     c = m.func('_construct_prior_obs')
     cc = [x for x in walk(c) if isinstance(x, ast.Call) and call_name(x) == 'cov_Obs']
     ok = len(cc) == 1 and unparse(cc[0].args[0]) == 'loc_val' and unparse(cc[0].args[1]) == 'loc_dval ** 2'
@@ -220,6 +250,13 @@ def d3_flags(ctx, obs):
     r = [s for s in statements(fc) if isinstance(s, ast.Return)]
     ok = len(r) == 1 and isinstance(r[0].value, ast.JoinedStr) and [unparse(x.value) for x in r[0].value.values if isinstance(x, ast.FormattedValue)] == ['self.real', 'self.imag']
     ctx.check(rule, 'obs.py:CObs.__format__', ok, 'complex observables format real and imaginary part', 'returns %s' % [unparse(x.value) for x in r])
+    if ok:
+        fv = [x for x in r[0].value.values if isinstance(x, ast.FormattedValue)]
+        spec = [''.join(unparse(y.value) if isinstance(y, ast.FormattedValue) else y.value for y in x.format_spec.values) if x.format_spec is not None else '' for x in fv]
+        # the real part is formatted with the complete specification (flags included), the imaginary part with an explicit sign
+        ps = fc.args.args[1].arg
+        ctx.check(rule, 'obs.py:CObs.__format__#specs', spec[0] == ps and spec[1].startswith('+'), 'real part: the full format specification; imaginary part: explicit sign + significance',
+                  'real / imaginary part are formatted with the specifications %s: the flags of the requested format (%s) do not reach the real part' % (spec, ps), obs.loc(r[0]))
 
 
 def mod_stmt(mod, node):
@@ -342,6 +379,9 @@ def run(ctx):
 
 
 SELFTEST = [
+    ('prior-regex-drops-sign', 'pyerrors/fits.py', "    split_string = string.split('(')", "    import_free = string.lstrip('+-')\n    split_string = import_free.split('(')", 'C19-D2'),
+    ('benign-prior-partition', 'pyerrors/fits.py', "    split_string = string.split('(')", "    split_string = list(string.partition('(')[::2])", 'BENIGN'),
+    ('prior-error-unscaled-with-dot', 'pyerrors/fits.py', "if '.' in split_string[0] and '.' not in split_string[1][:-1]:", "if '.' in split_string[0]:", 'C19-D2'),
     ('error-digits-cut', 'pyerrors/obs.py', "        return f\"{value:.{significance - 1}f}({dvalue:1.{significance - 1}f})\"", "        return f\"{value:.{significance - 1}f}(\" + f\"{dvalue:1.{significance - 1}f}\"[:significance + 1] + \")\"", 'C19-D1'),
     ('le-via-tolerant-eq', 'pyerrors/obs.py', "    def __le__(self, other):\n        return self.value <= other", "    def __le__(self, other):\n        return self.value < other or self == other", 'C19-D4'),
     ('benign-ge-mirrored', 'pyerrors/obs.py', "    def __ge__(self, other):\n        return self.value >= other", "    def __ge__(self, other):\n        return not (self.value < other)", 'BENIGN'),
